@@ -7,6 +7,7 @@ import ClairModel.Model.FeedTransfer
 
     reset                      forget the current feed                      -> ok
     feed <loop> <hex>          load the plaintext of a feed; run its loop on the intact stream
+    load <loop> <hex>          load the plaintext of a feed                 -> ok
     cut <k>                    stream = first k bytes, then EOF
     fail <k> <chunk> <mode>    stream = first k bytes in chunks, then a read error
     flip <pos> <xor>           (one-json) framing verdict of the feed with one byte changed
@@ -170,6 +171,10 @@ def step (s : St) (l : String) : St × String :=
            | .invalid _ => "invalid")
         | _ => runLoop loop ⟨[bs], .eof⟩
       (s', out)
+  | ["load", loop, h] =>
+    match Driver.unhex h with
+    | none => (s, "bad-op")
+    | some bs => ({ s with loop := loop, plain := bs }, "ok")
   | ["cut", k] =>
     match k.toNat? with
     | some k => (s, runLoop s.loop ⟨[s.plain.take k], .eof⟩)
